@@ -10,9 +10,11 @@ import FordModel.Lemmas.Path
 import FordModel.Lemmas.Nav
 import FordModel.Lemmas.Url
 import FordModel.Lemmas.StrLink
+import FordModel.Lemmas.ReadMore
+import FordModel.Lemmas.Relurl
 import FordModel.Generated.C09
 namespace Ford.C09
-open Ford Ford.Path Ford.Nav Ford.Url Ford.StrLink Ford.Generated.C09
+open Ford Ford.Path Ford.Nav Ford.Url Ford.StrLink Ford.ReadMore Ford.Relurl Ford.Generated.C09
 
 /-! ## relative URLs: `os.path.relpath` and its resolution -/
 
@@ -263,6 +265,78 @@ theorem doclink_other_depth_witness :
     resolve base (docLinkPath base t t) ≠ base ++ t.file ∧
       resolve (base ++ [['p', 'a', 'g', 'e'], ['s', 'u', 'b']]) (docLinkPath base t t) ≠ base ++ t.file := by
   decide +kernel
+
+/-! ## round 3: the "Read more" link of a summary -/
+
+/-- Clause "resolves to a file that exists": `FortranBase.markdown` appends
+    `<a href="../{get_url()}">Read more…</a>` to a summary that differs from the documentation.
+    Over the regenerated rule (`summaryTables`): for every documentation text, the link is appended
+    **only to entities that have a URL** — an entity without page and anchor (type / interface block
+    local to a procedure, components of such a type) never gets `href="../None"`.
+    Partial: excluded by the explicit hypothesis are doc comments with `summary:` metadata and
+    documentation without any `<p>` paragraph (unless the link itself is guarded by `get_url()`,
+    as in the repaired code); see `read_more_without_url_witness`. -/
+theorem read_more_link_has_url_partial (hasUrl : Bool) (explicit para : Option Str) (doc : Str)
+    (hx : summaryTables.linkNeedsUrl = true ∨ (explicit = none ∧ (para.isSome = true ∨ strip doc = [])))
+    (h : readMore summaryTables hasUrl explicit para doc = true) : hasUrl = true :=
+  readMore_url summaryTables (by decide) hasUrl explicit para doc hx h
+
+/-- The excluded class genuinely violates the property in the code as it is (finding
+    C09-read-more-link-without-url): an entity without URL whose doc comment has `summary:`
+    metadata, or whose documentation has no paragraph (e.g. only a list), gets the link, and
+    its target is the file `None` next to the output root's directories. -/
+theorem read_more_without_url_witness :
+    readMore ReadMore.asIs false (some ['s']) (some ['<', 'p', '>', 'd', '<', '/', 'p', '>']) ['<', 'p', '>', 'd', '<', '/', 'p', '>'] = true ∧
+      readMore ReadMore.asIs false none none ['<', 'u', 'l', '>', '<', '/', 'u', 'l', '>'] = true ∧
+      readMoreHref none = [up, ['N', 'o', 'n', 'e']] := by
+  decide
+
+/-- Clause "from every page depth (… list pages, entity pages …)": when the entity has a URL, the
+    link `../<url>` read on any page one directory below the output root (list pages, the pages of
+    the entity's host — the places where summaries are printed) is `<output dir>/<url>`, wherever
+    the output directory is. -/
+theorem read_more_href_resolves (base : List Seg) (hb : Normal base) (d : Seg) (hd : NormalSeg d)
+    (u : List Seg) (hu : Normal u) :
+    resolve (base ++ [d]) (readMoreHref (some u)) = base ++ u :=
+  resolve_readMoreHref base hb d hd u hu
+
+/-! ## round 3: absolute links below the output directory are made relative on every file system -/
+
+/-- Clause "is relative … so the output can be moved or published unchanged", for every way the
+    project / output directory may be reached (symbolic links in its path included): over the
+    regenerated facts (`relurlTables`: how `normalise_path` tidies `output_dir`, what
+    `relative_url` searches for), for **every** file system whose `realpath` is idempotent, a
+    link `<project_url>/<t>` is found and rewritten by the `relurl` filter — provided the files
+    FORD itself writes below a canonical output directory are not reached through a symbolic link. -/
+theorem relurl_rewrites_output_links (fs : FS) (hidem : ∀ p, fs.real (fs.real p) = fs.real p)
+    (p t : List Seg)
+    (hplain : fs.real (normalisePath relurlTables fs p) = normalisePath relurlTables fs p →
+      fs.real (normalisePath relurlTables fs p ++ t) = normalisePath relurlTables fs p ++ t) :
+    rewrites relurlTables fs (normalisePath relurlTables fs p ++ t) = true :=
+  rewrites_of_ok relurlTables (by decide) fs hidem p t hplain
+
+/-- ... and what it writes is a relative reference that resolves, from the page that carries it
+    (any depth), to the target below the output directory. -/
+theorem relurl_output_link_resolves (fs : FS) (hidem : ∀ p, fs.real (fs.real p) = fs.real p)
+    (p pageDir t : List Seg)
+    (hplain : fs.real (normalisePath relurlTables fs p) = normalisePath relurlTables fs p →
+      fs.real (normalisePath relurlTables fs p ++ t) = normalisePath relurlTables fs p ++ t)
+    (hd : Normal (normalisePath relurlTables fs p)) (hp : Normal pageDir) (ht : Normal t) :
+    ∃ r, relurl relurlTables fs (normalisePath relurlTables fs p ++ pageDir) (normalisePath relurlTables fs p ++ t) = some r ∧
+      resolve (normalisePath relurlTables fs p ++ pageDir) r = normalisePath relurlTables fs p ++ t :=
+  relurl_resolves relurlTables fs _ pageDir t
+    (relurl_rewrites_output_links fs hidem p t hplain) hd hp ht
+
+/-- Why `normalise_path` must dereference symbolic links as long as `relative_url` compares with
+    the resolved href: with a textual `abspath` and one symbolic link `/work -> /real` on the way
+    to the project, the (idempotent) file system below leaves the absolute path in the page. -/
+theorem normalise_without_resolve_witness :
+    (∀ p, linkFS.real (linkFS.real p) = linkFS.real p) ∧
+      relurl { normalise := .abspath, relurlResolves := true } linkFS
+        (normalisePath { normalise := .abspath, relurlResolves := true } linkFS [['w', 'o', 'r', 'k'], ['d', 'o', 'c']] ++ [['l', 'i', 's', 't', 's']])
+        (normalisePath { normalise := .abspath, relurlResolves := true } linkFS [['w', 'o', 'r', 'k'], ['d', 'o', 'c']] ++ [['p', 'r', 'o', 'c'], ['x']])
+        = none :=
+  ⟨linkFS_idem, by decide⟩
 
 /-- Non-vacuity of the hypotheses above on a concrete entity: a variable of a type
     declared in a module gets `type/<type>.html#variable-<name>`. -/
